@@ -1,4 +1,5 @@
 import Svgbob.Proofs.TextCover
+import Svgbob.Proofs.TableNoText
 /-!
 # C04 — every non-drawing character appears exactly once, as text, in its own cell
 
@@ -69,6 +70,94 @@ theorem contacts_preserve_shown_text (env : Env) (len : List Char → Nat)
     · simp at hm; subst hm; simp
     · simp at hm
   · intros; trivial
+
+/-! ## A whole scope: every label character is shown exactly once, in its own cell, and nothing else
+
+From the cells of a span (pairwise different, none holding the NUL filler — both hold for the cell
+map the front end builds) through the fragment buffer, the fragment merge and the contact grouping. -/
+
+/-- the `(cell, character)` pairs shown by the contact groups of a scope -/
+def scopeShown (env : Env) (s : Span) : List (Cell × Char) :=
+  (contactsOf (segColumns env) s).flatMap fun g => g.flatMap fun f => f.frag.shown env
+
+/-- what one cell shows -/
+def cellShown (env : Env) (s : Span) (cc : Cell × Char) : List (Cell × Char) :=
+  (cellFragments (segColumns env) s cc.1 cc.2).flatMap fun f => (f.absPos cc.1).shown env
+
+/-- **the contact groups show exactly — with multiplicity — what the cells show** -/
+theorem scope_shows_what_its_cells_show (env : Env) (s : Span) (hnd : (s.map (·.1)).Nodup)
+    (hn : ∀ cc ∈ s, cc.2 ≠ nul) : (scopeShown env s).Perm (s.flatMap (cellShown env s)) :=
+  contactsOf_shown env s hnd
+    (fun cc hcc => cellFragments_noNul (segColumns env) s cc.1 cc.2 (hn cc hcc))
+
+/-- a cell shows nothing, or its own `(cell, character)` pair: the tables hold geometry only -/
+theorem cell_shows_only_itself (env : Env) (s : Span) (cc : Cell × Char) :
+    ∀ p ∈ cellShown env s cc, p = cc :=
+  Svgbob.cell_shows_only_itself (segColumns env) env s cc.1 cc.2
+
+/-- a label character (no drawing meaning) shows exactly itself -/
+theorem label_cell_shows_itself (env : Env) (s : Span) (cc : Cell × Char)
+    (h : entryOf (segColumns env) cc.2 = none) : cellShown env s cc = [cc] := by
+  simp [cellShown, cellFragments, h, Frag.absPos, Frag.shown, showCells]
+
+theorem nodup_of_map {α β : Type} (f : α → β) : ∀ l : List α, (l.map f).Nodup → l.Nodup
+  | [], _ => List.nodup_nil
+  | a :: l, h => by
+    simp only [List.map_cons, List.nodup_cons] at h ⊢
+    exact ⟨fun ha => h.1 (List.mem_map_of_mem ha), nodup_of_map f l h.2⟩
+
+theorem count_flatMap_own {α : Type} [BEq α] [LawfulBEq α] (l : List α) (F : α → List α)
+    (hF : ∀ a ∈ l, ∀ p ∈ F a, p = a) (hnd : l.Nodup) (a : α) (ha : a ∈ l) (hFa : F a = [a]) :
+    (l.flatMap F).count a = 1 := by
+  induction l with
+  | nil => cases ha
+  | cons b bs ih =>
+    simp only [List.flatMap_cons, List.count_append]
+    simp only [List.nodup_cons] at hnd
+    obtain ⟨hb, hbs⟩ := hnd
+    by_cases hab : a = b
+    · subst hab
+      rw [hFa]
+      have h0 : (bs.flatMap F).count a = 0 := by
+        rw [List.count_eq_zero]
+        intro hm
+        simp only [List.mem_flatMap] at hm
+        obtain ⟨c, hc, hac⟩ := hm
+        have := hF c (List.mem_cons_of_mem _ hc) a hac
+        subst this
+        exact hb hc
+      simp [h0]
+    · have h0 : (F b).count a = 0 := by
+        rw [List.count_eq_zero]
+        intro hm
+        exact hab (hF b (by simp) a hm)
+      have hin : a ∈ bs := by
+        rcases List.mem_cons.mp ha with h | h
+        · exact absurd h hab
+        · exact h
+      rw [h0, ih (fun c hc => hF c (List.mem_cons_of_mem _ hc)) hbs hin]
+
+/-- **every label character of a scope is shown exactly once, in its own cell** -/
+theorem label_shown_exactly_once (env : Env) (s : Span) (hnd : (s.map (·.1)).Nodup)
+    (hn : ∀ cc ∈ s, cc.2 ≠ nul) (cc : Cell × Char) (hcc : cc ∈ s)
+    (hlabel : entryOf (segColumns env) cc.2 = none) : (scopeShown env s).count cc = 1 := by
+  rw [(scope_shows_what_its_cells_show env s hnd hn).count_eq]
+  exact count_flatMap_own s (cellShown env s) (fun a _ => cell_shows_only_itself env s a)
+    (nodup_of_map _ s hnd) cc hcc (label_cell_shows_itself env s cc hlabel)
+
+/-- **nothing foreign is shown**: every shown pair is a cell of the scope with its own character -/
+theorem nothing_foreign_is_shown (env : Env) (s : Span) (hnd : (s.map (·.1)).Nodup)
+    (hn : ∀ cc ∈ s, cc.2 ≠ nul) : ∀ p ∈ scopeShown env s, p ∈ s := by
+  intro p hp
+  have hp' := (scope_shows_what_its_cells_show env s hnd hn).mem_iff.mp hp
+  simp only [List.mem_flatMap] at hp'
+  obtain ⟨cc, hcc, hpc⟩ := hp'
+  rw [cell_shows_only_itself env s cc p hpc]
+  exact hcc
+
+/-! Non-vacuity: a two-cell span `a|` satisfies the hypotheses; `a` is a label character. -/
+example : (([(⟨0, 0⟩, 'a'), (⟨1, 0⟩, '|')] : Span).map (·.1)).Nodup := by decide
+example : ∀ cc ∈ ([(⟨0, 0⟩, 'a'), (⟨1, 0⟩, '|')] : Span), cc.2 ≠ nul := by decide
 
 /-! Tests (labelled as tests): with display widths, `é` (one column) followed by a space and `b`
 does not merge; `一` (two columns) merges with the character two columns on. -/
